@@ -321,6 +321,9 @@ def grammar_boundaries(m, rng):
             out.append("$7$4" + r + "/...." + S(8))
         for pp in ("/....", "0....", ".....", "1....", "./..."):
             out.append("$7$4/...." + pp + S(8))
+        # '$' is allowed INSIDE a $7$ salt: the salt ends at the LAST '$' (trailing '$', a hash part, several '$')
+        out += ["$7$4/..../....ab$cd$", "$7$4/..../....ab$cd$ef", "$7$4/..../....a$$b$", "$7$4/..../....$$", "$7$4/..../....ab$cd$" + S(43),
+                "$7$4/..../....So$dium$Chloride$"]
         out += ["$7$4/..../...." + S(n) for n in (0, 1, 2, 43, 64, 100)] + ["$7$4/..../...." + S(8) + "$", "$7$4/..../...." + S(8) + "$junk", "$7$4/..../....$",
                 "$7$4/..../....$" + S(43), "$7$4/..../...", "$7$4/....", "$7$4", "$7$", "$7", "$7$4/..../...-" + S(4), "$7$4/..../...." + S(3) + "-" + S(3),
                 "$7$4/..-./...." + S(4)]
@@ -359,3 +362,22 @@ def kdf_rejected_params():
 
 
 INVALID_SETTINGS += kdf_rejected_params()
+
+
+# bigcrypt phrases (searched once with the released library) in which the salt chained out of the SECOND segment's
+# digest equals the setting's salt (first four) or the salt chained out of the first segment (last two): the corner a
+# "skip des_set_salt when the salt did not change" shortcut gets wrong.  Setting = salt + 22 filler characters.
+BIGCRYPT_CHAIN_COLLISIONS = [
+    ("u8jzPde0HubGilj2tail-seg", "ab"), ("Wo9TPhu5GRIJ1c0vtail-seg", "zQ"), ("YbqPWZeyaIzfTfdotail-seg", ".."), ("FXcT79NpzWR39I5Ltail-seg", "9/"),
+    ("Nqrm8s3pZCK18Udlthird..!", "cd"), ("JTObP9gtUmkiFSfathird..!", "Xy"),
+]
+
+
+def zero_settings(m, rng):
+    """settings whose salt (and, where the grammar allows, count) decodes to all-zero bits or is empty: code that
+    skips an initialisation 'because the value is zero anyway' relies on scratch memory being zero"""
+    return {"descrypt": ["..", "./"], "bigcrypt": [".." + "." * 22, "..", "./" + salt(rng, 11)], "bsdicrypt": ["_/.......", "_........"],
+            "md5crypt": ["$1$", "$1$$"], "sha256crypt": ["$5$", "$5$rounds=1000$"], "sha512crypt": ["$6$", "$6$rounds=1000$"],
+            "sha1crypt": ["$sha1$1$."], "sunmd5": ["$md5$", "$md5$rounds=1$"], "nt": ["$3$"],
+            "bcrypt": ["$2b$04$" + "." * 22], "bcrypt_a": ["$2a$04$" + "." * 22], "bcrypt_x": ["$2x$04$" + "." * 22], "bcrypt_y": ["$2y$04$" + "." * 22],
+            "yescrypt": ["$y$j65$", "$y$j65$...."], "gost_yescrypt": ["$gy$j65$", "$gy$j65$...."], "scrypt": ["$7$4/..../....", "$7$4/..../........"]}.get(m, [])
